@@ -96,7 +96,10 @@ func deref(v interface{}) interface{} {
 func (s *Servant) handle(ctx context.Context, fn string, ins []interface{}, outs []interface{}, ret interface{}) error {
 	rc, hasC := current.GetRequestContext(ctx)
 	rs, hasS := current.GetRequestStatus(ctx)
-	token := rc[TokenKey]
+	return s.handleToken(ctx, rc[TokenKey], rc, rs, hasC, hasS, fn, ins, outs, ret)
+}
+
+func (s *Servant) handleToken(ctx context.Context, token string, rc, rs map[string]string, hasC, hasS bool, fn string, ins []interface{}, outs []interface{}, ret interface{}) error {
 	rec := &Received{Func: fn, ReqContext: copyMap(rc), ReqStatus: copyMap(rs), HasContext: hasC, HasStatus: hasS}
 	for _, in := range ins {
 		rec.Ins = append(rec.Ins, deref(in))
@@ -117,10 +120,10 @@ func (s *Servant) handle(ctx context.Context, fn string, ins []interface{}, outs
 	if d.Gate != nil {
 		<-d.Gate
 	}
-	if d.RspContext != nil {
+	if d.RspContext != nil && ctx != nil {
 		current.SetResponseContext(ctx, d.RspContext)
 	}
-	if d.RspStatus != nil {
+	if d.RspStatus != nil && ctx != nil {
 		current.SetResponseStatus(ctx, d.RspStatus)
 	}
 	if d.Err != nil {
@@ -184,5 +187,73 @@ func (s *Servant) Mixed(ctx context.Context, token string, first *VI.Pair, in *V
 }
 func (s *Servant) Opt(ctx context.Context, a *VT.OptScalars, b *VT.OptContainers) (ret VT.OptScalars, err error) {
 	err = s.handle(ctx, "opt", []interface{}{a}, []interface{}{b}, &ret)
+	return
+}
+
+// PlainServant is the same recording implementation behind the context-less servant interface
+// (the generated dispatcher has separate call emitters for servants with and without context).
+// Without a context the implementation cannot see the token, so the caller announces the token of
+// the (single) call in flight with SetCurrent; request context/status are not observable here.
+type PlainServant struct {
+	S   *Servant
+	mu  sync.Mutex
+	cur string
+}
+
+func (ps *PlainServant) SetCurrent(token string) { ps.mu.Lock(); ps.cur = token; ps.mu.Unlock() }
+
+func (ps *PlainServant) handle(fn string, ins []interface{}, outs []interface{}, ret interface{}) error {
+	ps.mu.Lock()
+	tok := ps.cur
+	ps.mu.Unlock()
+	return ps.S.handleToken(nil, tok, nil, nil, false, false, fn, ins, outs, ret)
+}
+
+var _ VI.EchoServant = (*PlainServant)(nil)
+
+func (ps *PlainServant) Strs(a string, b []string, c *[]string) (ret string, err error) {
+	err = ps.handle("strs", []interface{}{a, b}, []interface{}{c}, &ret)
+	return
+}
+func (ps *PlainServant) Bytes(a []int8, b *[]int8) (ret []int8, err error) {
+	err = ps.handle("bytes", []interface{}{a}, []interface{}{b}, &ret)
+	return
+}
+func (ps *PlainServant) Nested(a [][]int32, b *[][]int64) (ret [][]int32, err error) {
+	err = ps.handle("nested", []interface{}{a}, []interface{}{b}, &ret)
+	return
+}
+func (ps *PlainServant) Maps(a map[string]string, b map[int32][]VI.Pair, c *map[int32][]VI.Pair) (ret map[string]string, err error) {
+	err = ps.handle("maps", []interface{}{a, b}, []interface{}{c}, &ret)
+	return
+}
+func (ps *PlainServant) Structs(a *VT.Outer, p *VI.Pair, c *VT.Containers, q *VI.Pair) (ret VT.Outer, err error) {
+	err = ps.handle("structs", []interface{}{a, p}, []interface{}{c, q}, &ret)
+	return
+}
+func (ps *PlainServant) Enums(a VT.Color, b []VT.Color, c *VT.Color) (ret VT.Color, err error) {
+	err = ps.handle("enums", []interface{}{a, b}, []interface{}{c}, &ret)
+	return
+}
+func (ps *PlainServant) Nothing() (err error) {
+	return ps.handle("nothing", nil, nil, nil)
+}
+func (ps *PlainServant) OnlyOut(a *int32, b *string, c *VI.Pair) (err error) {
+	return ps.handle("onlyOut", nil, []interface{}{a, b, c}, nil)
+}
+func (ps *PlainServant) OutFirst(tokenOut *string, token string, x int32) (ret int64, err error) {
+	err = ps.handle("outFirst", []interface{}{token, x}, []interface{}{tokenOut}, &ret)
+	return
+}
+func (ps *PlainServant) Mixed(token string, first *VI.Pair, in *VT.Inner, second *[]int32, m map[string]VI.Pair, third *map[string]VI.Pair) (ret bool, err error) {
+	err = ps.handle("mixed", []interface{}{token, in, m}, []interface{}{first, second, third}, &ret)
+	return
+}
+func (ps *PlainServant) Opt(a *VT.OptScalars, b *VT.OptContainers) (ret VT.OptScalars, err error) {
+	err = ps.handle("opt", []interface{}{a}, []interface{}{b}, &ret)
+	return
+}
+func (ps *PlainServant) Scalars(b bool, i8 int8, i16 int16, i32 int32, i64 int64, u8 uint8, u16 uint16, u32 uint32, f32 float32, f64 float64, str string, ob *bool, oi8 *int8, oi16 *int16, oi32 *int32, oi64 *int64, ou8 *uint8, ou16 *uint16, ou32 *uint32, of32 *float32, of64 *float64, os *string) (ret int32, err error) {
+	err = ps.handle("scalars", []interface{}{b, i8, i16, i32, i64, u8, u16, u32, f32, f64, str}, []interface{}{ob, oi8, oi16, oi32, oi64, ou8, ou16, ou32, of32, of64, os}, &ret)
 	return
 }
